@@ -1,6 +1,7 @@
 """C01 — a passing assertion implies the value really matches the pattern."""
 import likestream
 import userlike
+import usercmp
 import semprops
 import vlib
 
@@ -28,6 +29,7 @@ def run(res):
             res.violation("failing-input", semprops.WITNESS_C01["what"], {"program_body": semprops.WITNESS_C01["body"]})
     likestream.run(res, "sound")
     failing += userlike.run(res, "sound")
+    failing += usercmp.run(res)
     semprops.finish(res, "C01", cases, bad, sem_dis, na, nc, failing, passes,
                     "well-typed (type, value, pattern) triples over 16 root types (structs, enums, Option/Result, Box, Vec, tuples, maps) "
                     "with every pattern form, field operations, nesting to depth 6; leaves are written on or just across the boundary of "
@@ -39,6 +41,8 @@ def run(res):
 
 def replay(res, path):
     import json
+    if json.load(open(path)).get("usercmp_program"):
+        return usercmp.replay(json.load(open(path)))
     if json.load(open(path)).get("user_like_program"):
         n = userlike.run(res, "sound")
         print("user-Like programs re-run:", "violation" if n else "property holds on these inputs")
